@@ -1,7 +1,7 @@
 """C06 CrossHair harness, family `history_real`: short histories over the REAL zorg (vlib/crashreal.py, nothing stubbed).
 
 pre-state pair (any two per-page states satisfying the invariants) -> `db reindex` in a solver-chosen mode (plain / page a
-/ page b) -> a solver-chosen edit of page a (none / delete / any of its texts) -> plain `db reindex` -> the index must
+/ page b / page a spelled s/../a.zo) -> a solver-chosen edit of page a (none / delete / any of its texts) -> plain `db reindex` -> the index must
 answer like a fresh `db create` on a copy of the final files (same notes with the same ZIDs, bodies, tags per page; files
 untouched by that fresh create; hash map describes the files; no ZID twice).  This puts SQLRepo.remove_file_by_name,
 PageConverter, the tag / property rows and SQLite - which the model family of c06_h.py does not claim - inside the check.
@@ -19,8 +19,11 @@ from vlib.hx import V
 
 TABLES = (FILE_STATES, INDEX_STATES, HASH_STATES)
 EDITS = [-1] + list(range(len(FILE_STATES)))          # -1: no edit; else page a's file becomes FILE_STATES[e] (0: deleted)
-ADM = [(a, b, mode, e) for a in range(len(VALID)) for b in range(len(VALID)) for mode in range(3) for e in EDITS
-       if not (mode == 1 and VALID[a][0] == 0) and not (mode == 2 and VALID[b][0] == 0)]
+# run modes: 0 plain; 1 / 2 the explicit path of page a / b; 3 page a under a NON-CANONICAL spelling (s/../a.zo): an explicit
+# path that the plain run's scan of the directory never yields under that name
+MODE_RELS = [[], [NAMES[0]], [NAMES[1]], ["s/../" + NAMES[0]]]
+ADM = [(a, b, mode, e) for a in range(len(VALID)) for b in range(len(VALID)) for mode in range(4) for e in EDITS
+       if not (mode in (1, 3) and VALID[a][0] == 0) and not (mode == 2 and VALID[b][0] == 0)]
 PIN_N = os.environ.get("XH_N", "")
 STRIDE = int(os.environ.get("XH_STRIDE", "1"))
 OFFSET = int(os.environ.get("XH_OFFSET", "0"))
@@ -51,7 +54,8 @@ def history(n):
         z = base / "z"
         z.mkdir()
         crashreal.put_state(z, NAMES, TEXTS, (VALID[a], VALID[b]), *TABLES)
-        rels = [[], [NAMES[0]], [NAMES[1]]][mode]
+        rels = MODE_RELS[mode]
+        (z / "s").mkdir(exist_ok=True)
         _c, _log, err = crashreal.run(z, "reindex", rels)
         if err is not None:
             return "`db reindex%s` fails: %s" % ("".join(" " + r for r in rels), err)
@@ -78,6 +82,6 @@ def history_real(n: int) -> bool:
     pre: 0 <= n < len(ADM) and _n_ok(n)
     post: _
     """
-    n = conc_bits(n, 14)
+    n = conc_bits(n, len(ADM).bit_length())      # (width from the table: a fixed width silently folds every larger index onto the last one it can represent)
     with NoTracing():
         return V(history(n) == "")
